@@ -53,13 +53,16 @@ def finStr : Fin → String
 
 def runStr (r : Run) : String := joinWith "," (r.dates.map toString) ++ " " ++ finStr r.fin
 
-def mkWorld (k : Kind) (order : Nat) (h : Int) (npts : Nat) : World (Nat × Nat) :=
-  { kind := k, store := Prod.mk, epoch := fun _ => 0, h := h, order := order, pts := (List.range npts).map (fun (j : Nat) => Int.ofNat j * h) }
+/-- orbit values of the harness: (object, number of changes of its elements, number of changes of its drag term);
+`Sgp4._state` does not see the drag term -/
+def mkWorld (k : Kind) (order : Nat) (h : Int) (npts : Nat) : World (Nat × Nat × Nat) :=
+  { kind := k, store := Prod.mk, sameState := fun a b => a.1 == b.1 && a.2.1 == b.2.1, epoch := fun _ => 0, h := h, order := order, pts := (List.range npts).map (fun (j : Nat) => Int.ofNat j * h) }
 
 def call? (s : String) : Option Call :=
   match s.splitOn "/" with
   | ["P", o, d] => do pure (.propagate (← o.toNat?) (← iOfStr? d))
   | ["M", o] => do pure (.modify (← o.toNat?))
+  | ["B", o] => do pure (.modifyMeta (← o.toNat?))
   | ["I", o, c, ls, a] => do
     let ls ← if ls = "-" then some [] else (ls.splitOn ".").mapM String.toNat?
     pure (.iter (← o.toNat?) (← args? a) ls (← c.toNat?))
@@ -68,28 +71,25 @@ def call? (s : String) : Option Call :=
 def optStr : Option Int → String
   | none => "N" | some d => toString d
 
-/-- the harness' test listener watches a quantity that changes sign every `flipPeriod` µs of the date
-(not for the numerical propagator, whose listeners are silent in the correspondence) -/
+/-- the harness' test listener watches a quantity that changes sign every `flipPeriod` µs of the date -/
 def flipPeriod : Int := 700000000
 /-- the sign changes fall between the points of the 0.125 s grid the generated dates lie on (an event exactly on a
 sampled date is C10's subject) -/
 def flipOffset : Int := 31250
 
-def flips (k : Kind) (p d : Int) : Bool :=
-  match k with
-  | .num => false
-  | _ => ((p - flipOffset) / flipPeriod) % 2 != ((d - flipOffset) / flipPeriod) % 2
+def flips (_k : Kind) (p d : Int) : Bool :=
+  ((p - flipOffset) / flipPeriod) % 2 != ((d - flipOffset) / flipPeriod) % 2
 
 def histOp (k : Kind) (fuel order : Nat) (h : Int) (npts nls : Nat) (calls : List Call) : String :=
   let w := mkWorld k order h npts
-  let s0 : St (Nat × Nat) := { prev := List.replicate nls none }
-  let (_, outs) := calls.foldl (fun (acc : St (Nat × Nat) × List String) c =>
-    let (s, res) := exec (R := Nat × Nat) w (fun v _ => v) (fun _ p d => flips k p d) fuel acc.1 c
+  let s0 : St (Nat × Nat × Nat) := { prev := List.replicate nls none }
+  let (_, outs) := calls.foldl (fun (acc : St (Nat × Nat × Nat) × List String) c =>
+    let (s, res) := exec (R := Nat × Nat × Nat) w (fun v _ => v) (fun _ p d => flips k p d) fuel acc.1 c
     let b := match s.bound with | some (i, _) => toString i | none => "N"
     -- whose trajectory (orbit object, number of in-place modifications it had seen) the first state lies on
     let v := match res.states.head?, k with
       | _, .ephem => "-"
-      | some (j, n), _ => s!"{j}.{n}"
+      | some (j, a, b), _ => s!"{j}.{a + b}"
       | none, _ => "-"
     (s, acc.2 ++ [runStr res.run ++ s!" b{b} r{s.rebinds} v{v} e{(res.evs.map List.length).sum} p" ++ joinWith "," (s.prev.map optStr)])) (s0, [])
   joinWith " | " outs
@@ -98,7 +98,7 @@ def handle : List String → Option String
   | ["c08iter", k, fuel, order, h, npts, a] =>
     some (match kindOf? k, fuel.toNat?, order.toNat?, iOfStr? h, npts.toNat?, args? a with
       | some k, some fuel, some order, some h, some npts, some a =>
-        runStr (iterRun (mkWorld k order h npts) fuel 0 a).2
+        runStr (iterRun (mkWorld k order h npts) fuel 0 a false).2
       | _, _, _, _, _, _ => "bad-op")
   | "c08hist" :: k :: fuel :: order :: h :: npts :: nls :: calls =>
     some (match kindOf? k, fuel.toNat?, order.toNat?, iOfStr? h, npts.toNat?, nls.toNat?, calls.mapM call? with
